@@ -120,6 +120,8 @@ def run(ctx):
     # 3. end-to-end progress on the real pipeline
     win = core.window_scenarios(ctx, 24 if thorough else 8, 9000)
     core.execute_and_validate(ctx, "C04", win, par=1)
+    core.execute_and_validate(ctx, "C04", core.attend_scenarios(ctx, 40 if thorough else 12, 9100), par=4)
+    core.execute_and_validate(ctx, "C04", core.detach_scenarios(ctx, 60 if thorough else 16, 9200), par=8)
     scen = progress_scenarios(ctx, 400 if thorough else 100, 1)
     for i in range(0, len(scen), 100):
         core.execute_and_validate(ctx, "C04", scen[i:i + 100], par=6)
